@@ -254,6 +254,92 @@ def shard_e2e(arg):
     return st
 
 
+def weave(L, h, w, rows, cols, offset):
+    """a dense family of trails on the (h+1) x (w+1) point lattice: the chosen interior rows and columns as
+    full straight lines (they cross at interior points), their 2k ends paired up in clockwise order along
+    the outer boundary and joined by the boundary path between them.  Every point has degree 0, 2 or 4;
+    whether it is ONE strand depends on the choice (decided by `analyse`) -> pattern"""
+    act = set()
+    for y in rows:
+        for x in range(w):
+            act.add(("H", y, x))
+    for x in cols:
+        for y in range(h):
+            act.add(("V", y, x))
+    ring = [(0, x) for x in range(w + 1)] + [(y, w) for y in range(1, h + 1)] + \
+           [(h, x) for x in range(w - 1, -1, -1)] + [(y, 0) for y in range(h - 1, 0, -1)]
+    pos = {p: i for i, p in enumerate(ring)}
+    ends = sorted(pos[p] for p in ([(y, 0) for y in rows] + [(y, w) for y in rows] +
+                                   [(0, x) for x in cols] + [(h, x) for x in cols]))
+    if ends:
+        ends = ends[offset % 2:] + ends[:offset % 2]
+        for a, b in zip(ends[0::2], ends[1::2]):
+            i = a
+            while i != b:
+                j = (i + 1) % len(ring)
+                p, q = ring[i], ring[j]
+                if p[0] == q[0]:
+                    act.add(("H", p[0], min(p[1], q[1])))
+                else:
+                    act.add(("V", min(p[0], q[0]), p[1]))
+                i = j
+    return [s_ in act for s_ in L.segments]
+
+
+def shard_dense(arg):
+    """frames of 4x4 .. 6x6 cells (beyond the exhaustive scope): dense self-crossing trails with more active
+    segments than the lattice has points, and their neighbours with one segment flipped"""
+    from hypothesis import strategies as hs
+
+    seed, frame, n = arg
+    h, w = frame
+    L = lattice.Lattice(h, w)
+    st = Stats()
+    for sc in (True, False):
+        case0 = dict(frame=[h, w], single_cycle=sc, native=False)
+        pats = []
+
+        @hs.composite
+        def c(draw):
+            full = draw(hs.integers(0, 2)) == 0      # the extremal member: every interior line present
+            rows = [y for y in range(1, h) if full or draw(hs.integers(0, 3)) > 0]
+            cols = [x for x in range(1, w) if full or draw(hs.integers(0, 3)) > 0]
+            pat = weave(L, h, w, rows, cols, draw(hs.integers(0, 1)))
+            k = draw(hs.integers(0, 3))
+            if k == 1 or (k == 2 and not sc):
+                on = [i for i, a in enumerate(pat) if a]
+                if on:
+                    pat[on[draw(hs.integers(0, len(on) - 1))]] = False     # open the trail somewhere
+            elif k == 2:
+                i = draw(hs.integers(0, len(pat) - 1))
+                pat[i] = not pat[i]
+            return dict(case0, pattern=[int(x) for x in pat])
+
+        def body(case):
+            pat = case["pattern"]
+            vp0, vc0, _, _, _, strands0 = analyse(L, [bool(x) for x in pat])
+            if len(pat) > 60 and not (vc0 if sc else vp0) and strands0 >= 2:
+                # refuting "several strands" on a large lattice takes the reference solver minutes; the large
+                # frames are there for the valid dense trails (small frames cover the rejections)
+                st.case(canon=case, nontrivial=False, classes=["dense:skipped-multi-strand-on-large-frame"])
+                return
+            st2 = Stats()
+            run_case(dict(case0, patterns=[[bool(x) for x in pat]], probe=True), st2)
+            vp, vc, _, _, nfour, strands = analyse(L, [bool(x) for x in pat])
+            valid = vc if sc else vp
+            st.case(canon=case, nontrivial=nfour >= 2,
+                    classes=["dense", "dense:" + ("valid" if valid else "invalid")] +
+                            (["dense:more-segments-than-points"] if valid and sum(pat) > (h + 1) * (w + 1) else []) +
+                            (["dense:segments>(h+2)(w+2)"] if valid and sum(pat) > (h + 2) * (w + 2) else []))
+            if st2.failures:
+                sig, d = sorted(st2.failures.items())[0]
+                raise Failure(sig + "|dense", observed=d["observed"], expected=d["expected"], detail=d["case"])
+
+        hyp_search(st, c(), body, seed=seed + (1 if sc else 0), max_examples=n, check="c10.dense", rounds=2,
+                   shrink=False, round_floor=4)
+    return st
+
+
 def run(ctx):
     ctx.rule = (
         "frames 0x2, 0x3, 1x1 .. 2x2, 1x3, 3x1 (m <= 12 segments): ALL 2^m subsets by fixed-pattern probing; "
@@ -301,7 +387,13 @@ def run(ctx):
     for r in pmap(shard_e2e, [(ctx.seed * 1000 + 90 + i, 70 if quick else 1500, 3 if quick else 4)
                               for i in range(8 if quick else 16)]):
         ctx.stats.merge(r)
+    dframes = [(4, 4), (5, 5), (5, 6), (6, 6), (6, 6), (6, 7), (7, 6), (4, 7)]
+    for r in pmap(shard_dense, [(ctx.seed * 1000 + 120 + i, fr, 10 if quick else 120) for i, fr in enumerate(dframes)]):
+        ctx.stats.merge(r)
     cl = ctx.stats.classes
+    ctx.floor("dense trails that are valid", cl["dense:valid"], 10)
+    ctx.floor("valid dense trails with more segments than points", cl["dense:more-segments-than-points"], 3)
+    ctx.floor("valid dense trails with more segments than (h+2)(w+2)", cl["dense:segments>(h+2)(w+2)"], 1)
     ctx.floor("probed patterns with a 4-way point", cl["has-4-way-point"], 200)
     ctx.floor("probed patterns with >= 2 strands", cl["two-or-more-strands"], 1000)
     ctx.floor("e2e cases with a 4-way point", cl["e2e-4-way"], 50)
